@@ -40,9 +40,10 @@ type (
 		Name, Type string
 	}
 	EQuant struct {
-		Forall bool
-		Vars   []Binder
-		Body   Expr
+		Forall   bool
+		Vars     []Binder
+		Body     Expr
+		Triggers [][]Expr // explicit patterns: forall x T {p1, p2} {q} :: body
 	}
 )
 
@@ -204,9 +205,22 @@ func (ps *specParser) expr() Expr {
 			}
 			break
 		}
+		var trigs [][]Expr
+		for ps.isOp("{") {
+			ps.next()
+			var mp []Expr
+			for !ps.isOp("}") {
+				mp = append(mp, ps.expr())
+				if ps.isOp(",") {
+					ps.next()
+				}
+			}
+			ps.expectOp("}")
+			trigs = append(trigs, mp)
+		}
 		ps.expectOp("::")
 		body := ps.expr()
-		return EQuant{fa, vars, body}
+		return EQuant{fa, vars, body, trigs}
 	}
 	return ps.iff()
 }
